@@ -74,6 +74,7 @@ type FuncReport struct {
 	SolverErrs []string `json:"solver_errors,omitempty"`
 	obligs     []*Oblig
 	trusted    []string
+	replay     *ReplayInfo
 }
 
 func main() {
@@ -297,6 +298,9 @@ func verifyFunc(P *Program, name string, tier Tier, outDir string, known []Known
 	sort.Strings(rep.trusted)
 	if x.returns == 0 && (len(fc.Ensures) > 0 || len(fc.OnReturn) > 0) && x.aborted == "" {
 		rep.Vacuity = append(rep.Vacuity, "no feasible path reaches a return of "+name)
+	}
+	if x.params != nil {
+		rep.replay = x.replayInfo()
 	}
 	rep.WallMs = time.Since(t0).Milliseconds()
 	return rep
